@@ -43,7 +43,9 @@ def setup(args):
     STATE.update(objs=objs, engine=engine, vcs=vcs)
     # a second database for the string conditions: labels with LIKE wildcards, case variants, substrings of each other
     slabels = ["C1", "C", "1", "", "c1", "C_", "%", "xC1", "c", "_1"]
-    sobjs = {f"s{i + 1}": VA(name=f"s{i + 1}", label=l) for i, l in enumerate(slabels)}
+    # ... and integer columns holding other values than 0 / 1, an Optional integer holding None / 0 / 2
+    sobjs = {f"s{i + 1}": VA(name=f"s{i + 1}", label=l, a=i % 4, b=(i // 2) % 3, w=[None, 0, 2, 1, None][i % 5])
+             for i, l in enumerate(slabels)}
     engine2 = create_engine("sqlite:///:memory:")
     gen.Base.metadata.create_all(engine2)
     with Session(engine2) as s:
@@ -134,6 +136,9 @@ STR_ATOMS = {
     "in1": lambda x: in_(x.label, ["C1"]), "in1t": lambda x: in_(x.label, ("C1",)), "in2": lambda x: in_(x.label, ["C1", "C"]),
     "inC": lambda x: in_(x.label, ["C"]), "inE": lambda x: in_(x.label, [""]), "eqC": lambda x: x.label == "C",
     "neC1": lambda x: x.label != "C1", "c1": lambda x: contains(["C1"], x.label), "a0": lambda x: x.a == 0, "b1": lambda x: x.b >= 1,
+    # a bare NON-boolean attribute as a condition (holds iff the value is truthy: 2 and 3 as much as 1), and the tests
+    # "the Optional attribute is set / is not set"
+    "bareA": lambda x: x.a, "bareB": lambda x: x.b, "wSet": lambda x: x.w != None, "wNone": lambda x: x.w == None,
     # a TEXT as the container: Python's substring test (exact, case sensitive; "_" and "%" are ordinary characters)
     "subT": lambda x: in_(x.label, "aC1b"), "conT": lambda x: contains("aC1b", x.label), "subU": lambda x: in_(x.label, "x_1%"),
 }
